@@ -1,0 +1,27 @@
+//go:build verif
+
+// Machine-checked contracts for package timestampcache (comment-only; see /verif/DESIGN.md).
+
+package timestampcache
+
+//@ func (*timestampCache).Timestamp
+//@   property C10
+//@   ghost asked bool = false
+//@   ghost innerTok *pkcs7.ContentInfoSignedData = nil
+//@   ghost innerErr error = nil
+//@   ghost hit bool = false
+//@   ghost hitTok *pkcs7.ContentInfoSignedData = nil
+//@   ghost looked string = ""
+//@   on call (*github.com/bradfitz/gomemcache/memcache.Client).Get(_, k) ret (it, e): looked = k
+//@   on call pkcs7.Unmarshal(_) ret (t, e): hit = (e == nil); hitTok = t
+//@   before call invoke pkcs9.Timestamper.Timestamp(_, _, r): assert @authority_asked_for_this_request r == req
+//@   on call invoke pkcs9.Timestamper.Timestamp(_, _, _) ret (t, e): asked = true; innerTok = t; innerErr = e
+//@   before call (*github.com/bradfitz/gomemcache/memcache.Client).Set(_, item): assert @only_tokens_from_the_authority_are_cached \
+//@        asked && innerErr == nil && item.Key == key && key == looked
+//@   ensures @token_is_a_cache_hit_for_this_key_or_from_the_authority ret1 == nil ==> \
+//@        (hit && !asked && ret0 == hitTok && looked == key) || (asked && innerErr == nil && ret0 == innerTok)
+//@   ensures @authority_failure_is_reported asked && innerErr != nil ==> ret1 != nil
+//@
+//@ func cacheKey
+//@   property C10
+//@   before call invoke hash.Hash.Write(_, b): assert @key_covers_the_signature_value sameslice(b, req.EncryptedDigest)
